@@ -237,6 +237,43 @@ func checkC12(P *Program, r *Result, tier string) {
 			r.fatal("expected the field obligations of ApplicationException, found %d", n)
 		}
 	}
+	// truncated headers end in an error: no failure of a nested read is overwritten or dropped
+	{
+		var fns []*ssa.Function
+		for _, t := range [][2]string{{"BinaryProtocol", "ReadMessageBegin"}, {"BufferReader", "ReadMessageBegin"}} {
+			if f := P.Method(relThrift, t[0], t[1]); f != nil {
+				fns = append(fns, f)
+			}
+		}
+		if f := P.Func(relThrift, "UnmarshalFastMsg"); f != nil {
+			fns = append(fns, f)
+		}
+		n := 0
+		for _, fn := range fns {
+			for _, c := range callsIn(fn) {
+				cc, ok := c.(*ssa.Call)
+				if !ok {
+					continue
+				}
+				sig := cc.Common().Signature()
+				ei := -1
+				for i := 0; i < sig.Results().Len(); i++ {
+					if isErrorType(sig.Results().At(i).Type()) {
+						ei = i
+					}
+				}
+				if ei < 0 {
+					continue
+				}
+				n++
+				ev := resultValue(cc, ei)
+				r.add("TRUNCATED", shortName(fn), "call", "the error result of "+calleeFullName(cc)+" is examined: a header cut short inside this part is reported", P.pos(instrPos(cc)), ev != nil && errExamined(ev, map[ssa.Value]bool{}), "")
+			}
+		}
+		if n < 5 {
+			r.fatal("expected at least 5 fallible nested reads in the message-begin readers, found %d", n)
+		}
+	}
 	// ---- VERSION ----
 	for _, t := range []struct{ typ, name string }{{"BinaryProtocol", "ReadMessageBegin"}, {"BufferReader", "ReadMessageBegin"}} {
 		fn := P.Method(relThrift, t.typ, t.name)
